@@ -268,6 +268,9 @@ void run_op(WorldRun &wr, int task, Pool &pool, const Op &op, uint32_t idx, Task
   if (c.out.status == ST_OK && c.out.target2 >= 0 && c.out.target2 != c.out.target)
     log.moved_from[c.out.target2] = true;
   post_oracles(wr, pool, before, c, log.viol, task, idx, "op");
+  for (int i = 0; i < NO; i++)
+    if (pool.osrc[i] >= 0 && (pool.osrc[i] == c.out.target || pool.osrc[i] == c.out.target2) && c.out.target != SLOT_O0 + i)
+      pool.osrc_dirty[i] = true;
   if (task >= 0 && !log.pins.empty()) {
     // pinned references: dropped when their object was this operation's
     // target, otherwise they must still be readable and unchanged
